@@ -15,8 +15,12 @@ try:
     for p in props:
         r = subprocess.run(["/verif/check", p, "--tier", "quick"], stdout=subprocess.PIPE, stderr=subprocess.STDOUT, text=True)
         lines = [l for l in r.stdout.split("\n") if re.search(r"VIOLATION|failing input|no longer checks|-> ok|-> VIOLATION", l)]
-        runs.append({"check": f"./check {p} --tier quick", "exit": r.returncode, "caught": r.returncode == 1, "output": lines[:6]})
-        print(tag, p, "CAUGHT" if r.returncode == 1 else "MISSED", lines[:2])
+        inp = r.returncode == 1 and any(l.startswith("VIOLATION") and "no-failing-input-found" not in l for l in lines)
+        pins = sum(1 for l in lines if "no longer checks: Chrono.Pins." in l)
+        lines = [l for l in lines if "no longer checks: Chrono.Pins." not in l][:6] or lines[:6]
+        runs.append({"check": f"./check {p} --tier quick", "exit": r.returncode, "caught": r.returncode == 1,
+                     "with_failing_input": inp, "source_pins_broken": pins, "output": lines})
+        print(tag, p, ("CAUGHT" if inp else "CAUGHT(pin only)") if r.returncode == 1 else "MISSED", lines[:2])
 finally:
     subprocess.run("git -C /repo checkout -- .", shell=True)
     # the evidence written while the seed was applied describes a mutated tree: never keep it
